@@ -352,6 +352,14 @@ def explore(cond: Cond, budget: typing.Optional[float] = None, max_cex: int = 25
         res["witness"] = {"args": {k: enc(v) for k, v in cond.witness.items()}, "outcome": out, "detail": detail}
         res["functions"] = funcs
 
+    if cond.witness is not None and res["witness"]["outcome"] == "violation":
+        # a concrete run of the real code already violates the assertion: report it, skip the symbolic search
+        res["cex"] = [{"args": {k: enc(v) for k, v in cond.witness.items()},
+                       "symbolic_detail": "witness run: " + res["witness"]["detail"], "detail": res["witness"]["detail"]}]
+        res.update({"verdict": "CEX", "exhausted_tree": False, "solver_queries": 0, "solver_time_s": 0.0,
+                    "wall_s": round(time.perf_counter() - started, 3), "budget_s": budget})
+        return res
+
     params = [
         inspect.Parameter(n, inspect.Parameter.POSITIONAL_OR_KEYWORD, annotation=t) for n, t in cond.sig.items()
     ]
